@@ -71,7 +71,50 @@ def check_inprocess(sc, junk1, junk2):
         vs.append(Violation(PROP, "C14/rerun/trees-differ", f"engines {engines}, seed {sc['options']['random_seed']}: two runs of the same configuration differ after scrambling the global generators: " + tree_diff(r1.tree, r2.tree)))
     elif summary_fingerprint(r1.tree) != summary_fingerprint(r2.tree):
         vs.append(Violation(PROP, "C14/rerun/summaries-differ", f"engines {engines}: equal trees but different summary() texts"))
+    vs += check_reuse(sc, d1, engines, r2)
     return vs, r1, (d1, summary_fingerprint(r1.tree))
+
+
+def _stateless_config(sc) -> bool:
+    if any(lv.get("wrappers") for lv in sc["levels"]):
+        return False
+    if any(lv["lsc"]["kind"] in ("Scripted", "Queue") for lv in sc["levels"]):
+        return False
+    if sc["gsc"]["kind"] == "SingularProblemPrecisionReached":
+        return False
+    g = sc["sprout"].get("generator", {})
+    return g.get("kind") not in ("Scripted", "Queue")
+
+
+def check_reuse(sc, d1, engines, r_same):
+    """'the same configuration' also means the same objects: (a) the sprout-mechanism objects of an earlier,
+    different run handed to this configuration, (b) the very same TreeConfig object run a second time"""
+    from pyhms.tree import DemeTree
+
+    vs = []
+    mode = sc.get("reuse_mode")
+    if mode == "mechanism" and sc["sprout"].get("generator", {}).get("kind") not in ("Scripted", "Queue"):
+        sc0 = dict(sc)
+        sc0["options"] = dict(sc["options"], random_seed=(int(sc["options"]["random_seed"]) + 17) % (2**31))
+        r0 = Run(sc0)
+        r0.run_all()
+        if r0.crash or r0.tree is None or r0.timed_out:
+            return vs
+        r3 = Run(sc, reuse_from=r0)
+        r3.run_all()
+        if r3.crash or r3.tree is None:
+            return vs
+        if tree_digest(r3.tree) != d1:
+            vs.append(Violation(PROP, "C14/reused-mechanism/trees-differ", f"engines {engines}: a run whose sprout-mechanism objects had served another tree before differs from the run with fresh objects: " + tree_diff(r_same.tree, r3.tree)))
+    elif mode == "config" and _stateless_config(sc):
+        try:
+            t2 = DemeTree(r_same.config)
+            t2.run()
+        except Exception:  # noqa: BLE001
+            return vs
+        if tree_digest(t2) != d1:
+            vs.append(Violation(PROP, "C14/reused-config/trees-differ", f"engines {engines}: running the same TreeConfig object a second time gives a different tree: " + tree_diff(r_same.tree, t2)))
+    return vs
 
 
 def run_subprocess(scs: list, hashseed: int, junk: int):
@@ -95,6 +138,8 @@ def run_shard(tier, seed, shard, nshards, tally: Tally, scale=1.0):
 
     def body(case):
         sc, j1, j2 = case
+        sc = dict(sc)
+        sc["reuse_mode"] = ["none", "mechanism", "config"][(j1 + j2) % 3]
         vs, r1, fp = check_inprocess(sc, j1, j2)
         if r1.crash:
             tally.aborted[r1.crash[0]] = tally.aborted.get(r1.crash[0], 0) + 1
@@ -162,8 +207,10 @@ def replay(case, kind=""):
         return []
     if isinstance(case, list):
         case = {"scenario": case[0], "junk": [case[1], case[2]]}
-    sc = case["scenario"]
+    sc = dict(case["scenario"])
     j = case.get("junk", [3, 4])
+    if not isinstance(j, int):
+        sc.setdefault("reuse_mode", ["none", "mechanism", "config"][(j[0] + j[1]) % 3])
     if isinstance(j, int):
         j = [3, j]
     vs, r1, fp = check_inprocess(sc, j[0], j[1])
